@@ -116,11 +116,23 @@ func (mbox *Mailbox) appendLiteral(r imap.LiteralReader, options *imap.AppendOpt
 	return mbox.appendBytes(buf.Bytes(), options), nil
 }
 
-func (mbox *Mailbox) copyMsg(msg *message) *imap.AppendData {
-	return mbox.appendBytes(msg.buf, &imap.AppendOptions{
-		Time:  msg.t,
-		Flags: msg.flagList(),
-	})
+// msgSnapshot is what is needed to append a copy of a message to another
+// mailbox. It is taken with the source mailbox locked.
+type msgSnapshot struct {
+	uid     imap.UID
+	buf     []byte
+	options imap.AppendOptions
+}
+
+func (msg *message) snapshot() msgSnapshot {
+	return msgSnapshot{
+		uid: msg.uid,
+		buf: msg.buf,
+		options: imap.AppendOptions{
+			Time:  msg.t,
+			Flags: msg.flagList(),
+		},
+	}
 }
 
 func (mbox *Mailbox) appendBytes(buf []byte, options *imap.AppendOptions) *imap.AppendData {
